@@ -299,3 +299,55 @@ theorem position_is_sum_of_deltas (a a' : BAnimator α) (comp comp' : List (Val 
         rw [ih a1 c1 c2 e2 s2 s3 h2, hp1, List.sum_cons]; omega
 
 end C18
+
+namespace C18
+variable {α : Type} [Num α]
+
+/-- **entities do not interfere**: in an App with any number of animated entities, a frame does to the k-th entity
+exactly what it would do if that entity were alone (same delta, same system order) -/
+theorem frameAll_get (ws : List (World α)) (δ : Nat) (cf qf : Bool)
+    (rs : List (World α × List AnimState × List AnimState)) (h : frameAll ws δ cf qf = .ok rs) :
+    rs.length = ws.length ∧ ∀ k (hk : k < ws.length) (hk' : k < rs.length), frame ws[k] δ cf qf = .ok rs[k] := by
+  induction ws generalizing rs with
+  | nil =>
+    simp only [frameAll, Except.ok.injEq] at h
+    subst h
+    exact ⟨rfl, fun k hk => absurd hk (by simp)⟩
+  | cons w rest ih =>
+    unfold frameAll at h
+    cases hw : frame w δ cf qf with
+    | error p => rw [hw] at h; simp at h
+    | ok r =>
+      rw [hw] at h
+      cases hr : frameAll rest δ cf qf with
+      | error p => rw [hr] at h; simp at h
+      | ok rs' =>
+        rw [hr] at h
+        simp only [Except.ok.injEq] at h
+        subst h
+        obtain ⟨hl, hg⟩ := ih rs' hr
+        refine ⟨by simp [hl], ?_⟩
+        intro k hk hk'
+        cases k with
+        | zero => simpa using hw
+        | succ k => simpa using hg k (by simpa using hk) (by simpa using hk')
+
+/-- a frame of the App fails (a panic of the implementation) only if the frame of one of its entities does -/
+theorem frameAll_error (ws : List (World α)) (δ : Nat) (cf qf : Bool) (p : Panic)
+    (h : frameAll ws δ cf qf = .error p) : ∃ w ∈ ws, frame w δ cf qf = .error p := by
+  induction ws with
+  | nil => simp [frameAll] at h
+  | cons w rest ih =>
+    unfold frameAll at h
+    cases hw : frame w δ cf qf with
+    | error q => rw [hw] at h; simp only [Except.error.injEq] at h; subst h; exact ⟨w, by simp, hw⟩
+    | ok r =>
+      rw [hw] at h
+      cases hr : frameAll rest δ cf qf with
+      | error q =>
+        rw [hr] at h; simp only [Except.error.injEq] at h; subst h
+        obtain ⟨w', hm, hf⟩ := ih hr
+        exact ⟨w', by simp [hm], hf⟩
+      | ok rs' => rw [hr] at h; simp at h
+
+end C18
